@@ -51,12 +51,27 @@ void harness(void)
 	full_timestamp_column_print(h); ref_full_stamp(ts);
 	if (ts == 0xffffffffu && sec == 60) WITNESS("last 32-bit stamp, leap second");
 #elif WHICH == 8
-	name_column_print(h); ref_name(h, 0);
-	if (have_target & have_path & have_name & 1) WITNESS("path + name -> target");
-	if (!(have_path & 1) && !(have_name & 1) && !(have_target & 1)) WITNESS("empty name");
+	{
+		/* every presence pattern of path / filename / link target, one compared segment each */
+		unsigned pat;
+		for (pat = 0; pat < 8; ++pat) {
+			h->path = (pat & 1) ? sh_path : NULL; h->filename = (pat & 2) ? sh_name : NULL; h->symlink_target = (pat & 4) ? sh_target : NULL;
+			name_column_print(h); ref_name(h, 0);
+			if (pat == 7 && out_n == 3 * SL + 4) WITNESS("path + name -> target, all of full length");
+			if (pat == 0) CHECK(out_n == 0, "nothing to print for an entry without names");
+			c19_segment();
+		}
+	}
 #elif WHICH == 9
-	whole_line_name_column_print(h); ref_name(h, 1);
-	if (have_target & have_name & 1) WITNESS("name|target");
+	{
+		unsigned pat;
+		for (pat = 0; pat < 8; ++pat) {
+			h->path = (pat & 1) ? sh_path : NULL; h->filename = (pat & 2) ? sh_name : NULL; h->symlink_target = (pat & 4) ? sh_target : NULL;
+			whole_line_name_column_print(h); ref_name(h, 1);
+			if (pat == 6 && out_n == 2 * SL + 2) WITNESS("name|target");
+			c19_segment();
+		}
+	}
 #elif WHICH == 10
 	header_level_column_print(h); ref_level(h);
 	if (level == 3) WITNESS("level 3");
@@ -64,15 +79,16 @@ void harness(void)
 	/* count, packed total, size total, ratio of totals: as they appear in the v footer */
 	permission_column_footer(&stats); verif_printf(" "); unix_uid_gid_column_footer(&stats); verif_printf(" "); packed_column_footer(&stats); verif_printf(" ");
 	size_column_footer(&stats); verif_printf(" "); ratio_column_footer(&stats);
-	ref_text(" Total    "); ref_b(' '); ref_num('d', 0, 5, REF_NOPREC, (u64) (long) (int) st_files); ref_text(st_files == 1 ? " file " : " files"); ref_b(' ');
+	ref_total_label(); ref_b(' '); ref_total_count(st_files); ref_b(' ');
 	ref_size(st_clen); ref_b(' '); ref_size(st_len); ref_b(' ');
-	if (st_len == 0) ref_text("******"); else ref_percent(st_clen, st_len);
+	ref_total_ratio(st_clen, st_len);
 	if (st_files == 1) WITNESS("1 file");
 	if (st_len == 0 && st_clen != 0) WITNESS("empty total");
 #elif WHICH == 12
-	timestamp_column_footer(&stats); verif_printf("|"); full_timestamp_column_footer(&stats);
-	ref_stamp(st_ts, (long long) now); ref_b('|'); ref_full_stamp(st_ts);
+	timestamp_column_footer(&stats); ref_stamp(st_ts, (long long) now);
 	if (st_ts != 0 && (u64) st_ts + 15552000 > now) WITNESS("recent archive");
+	c19_segment();
+	full_timestamp_column_footer(&stats); ref_full_stamp(st_ts);
 #endif
 	c19_compare();
 	WITNESS("end");
